@@ -16,6 +16,7 @@ import (
 	"math/rand/v2"
 	"net"
 	"net/netip"
+	"os"
 	"time"
 
 	"github.com/gopacket/gopacket"
@@ -461,7 +462,7 @@ func checkC44(r *mon.Run) {
 		"loopback delivery on Linux is synchronous: a datagram written by the shim before a marker datagram is in the receiver's queue when the marker has arrived",
 	}
 	g := &c44Gen{rng: r.Rand("c44")}
-	nServers := r.Pick(60, 600)
+	nServers := r.Pick(150, 1500)
 	perServer := r.Pick(200, 400)
 	svcStrings := func(s *c44Server) []string {
 		var out []string
@@ -597,7 +598,7 @@ func c44Sockets(r *mon.Run, g *c44Gen) {
 		}
 		return buf[:n], true
 	}
-	n := r.Pick(300, 3000)
+	n := r.Pick(600, 6000)
 	for i := 0; i < n; i++ {
 		// the probe: addressed (SCION) to application B
 		h := g.hdr(addr.HostIP(ipB))
@@ -625,6 +626,9 @@ func c44Sockets(r *mon.Run, g *c44Gen) {
 		r.Eval(1)
 		got, ok := recv(appA, 5*time.Second)
 		if !ok || string(got) != string(marker) {
+			if os.Getenv("C44_DEBUG") != "" {
+				fmt.Printf("DEBUG marker lost ok=%v marker=%x got=%x\n", ok, marker, got)
+			}
 			r.Inconclusive("socket-marker-lost")
 			continue
 		}
@@ -650,9 +654,14 @@ func c44Sockets(r *mon.Run, g *c44Gen) {
 			send(req, ipA)
 			send(marker, ipA)
 			r.Eval(1)
-			rep, okR := recv(br, 5*time.Second)
-			if _, okM := recv(appA, 5*time.Second); !okM || !okR {
+			// the reply (if any) is written before the marker is forwarded
+			if _, okM := recv(appA, 5*time.Second); !okM {
 				r.Inconclusive("socket-marker-lost")
+				continue
+			}
+			rep, okR := recv(br, time.Millisecond)
+			if !okR {
+				r.Class("socket/echo-request/not-answered")
 				continue
 			}
 			_, leakA := recv(appA, time.Millisecond)
